@@ -131,6 +131,65 @@ add({"name": "smells_like_watford", "file": ID,
                (r"(for \(pos = 8; pos <= last_catalog_entry_pos; pos \+= 8\))", r"\1 WATFORD_LOOP_CONTRACT", 1)],
      "dropped": ["eliminated_format(...) diagnostics (verbose-only stderr text)"]})
 
+# probe order (C13): smells_like_acorn_dfs and probe_format; every probe call goes through a recording wrapper (PF_*)
+add({"name": "smells_like_acorn_dfs", "file": ID,
+     "anchor": r"bool smells_like_acorn_dfs\(DFS::DataAccess& media, const DFS::SectorBuffer& sec1,\s*std::string& error\)",
+     "sig": "static bool smells_like_acorn_dfs(struct DataAccess *media, const SectorBuffer *sec1)",
+     "rules": [(r"sec1\[", "sec1->d[", ">=1"),
+               (r"eliminated_format\(DFS::Format::DFS, [^;]*\);", "/* diagnostic dropped */", ">=1"),
+               (r"smells_like_watford\(media, sec1\)", "PF_watford(media, sec1)", 1),
+               (r"DFS::sector_count_type sectors;", "sector_count_type sectors = 0;", 1),
+               (r"smells_like_opus_ddos\(media, &sectors\)", "PF_opus(media, &sectors)", 1),
+               (r"has_valid_dfs_catalog\(media, 0, error\)", "PF_valid_catalog(media, 0)", 1)],
+     "dropped": ["eliminated_format(...) diagnostics"]})
+add({"name": "probe_format", "file": ID,
+     "anchor": r"probe_format\(DFS::DataAccess& access, std::string& error\)",
+     "sig": "static struct opt_format_count probe_format(struct DataAccess *access)",
+     "rules": [(r"DFS::SectorBuffer buf1;", "SectorBuffer buf1;", 1),
+               (r"auto got = access\.read_block\(([^;]*)\);", r"opt_SectorBuffer got = DataAccess_read_block(access, \1);", 1),
+               (r"if \(!got\)", "if (!got.has)", 1), (r'error = "[^"]*";', "g_diag++;", ">=0"),
+               (r"buf1 = \*got;", "buf1 = got.val;", 1),
+               (r"return std::nullopt;", "{ struct opt_format_count none_; none_.has = 0; none_.fmt = 0; none_.count = 0; return none_; }", ">=1"),
+               (r"return std::make_pair\(DFS::Format::(\w+), ([^;]*)\);", r"{ struct opt_format_count some_; some_.has = 1; some_.fmt = Format_\1; some_.count = (\2); return some_; }", ">=1"),
+               (r"smells_like_hdfs\(buf1\)", "PF_hdfs(&buf1)", 1), (r"get_hdfs_sector_count\(buf1\)", "get_hdfs_sector_count(&buf1)", ">=0"),
+               (r"get_dfs_sector_count\(buf1\)", "get_dfs_sector_count(&buf1)", ">=0"),
+               (r"smells_like_watford\(access, buf1\)", "PF_watford(access, &buf1)", 1),
+               (r"DFS::sector_count_type opus_sectors;", "sector_count_type opus_sectors = 0;", 1),
+               (r"smells_like_opus_ddos\(access, &opus_sectors\)", "PF_opus(access, &opus_sectors)", 1),
+               (r"std::string acorn_dfs_error;", "/* error text dropped */", 1),
+               (r"smells_like_acorn_dfs\(access, buf1, acorn_dfs_error\)", "PF_acorn(access, &buf1)", 1),
+               (r"std::ostringstream ss;.*?error = ss\.str\(\);", "g_diag++;  /* diagnostic text dropped */", 1)],
+     "dropped": ["diagnostic texts"]})
+
+# geometry selection (C13: "a geometry large enough for the catalogue's sector count"): the three lambdas of probe_geometry
+add({"name": "single_sided_filesystem", "file": "dfs/dfs_filesystem.cc", "anchor": r"bool single_sided_filesystem\(Format fmt, DataAccess& media\)",
+     "sig": "static bool single_sided_filesystem(int fmt, struct DataAccess *media)",
+     "rules": [(r"DFS::Format::(\w+)", r"Format_\1", ">=1"),
+               (r"std::optional<DFS::SectorBuffer> got = media\.read_block\(([^;]*)\);", r"opt_SectorBuffer got = DataAccess_read_block(media, \1);", 1),
+               (r"if \(!got\)", "if (!got.has)", 1), (r"const DFS::SectorBuffer& sec1\(\*got\);", "const SectorBuffer *sec1 = &got.val;", 1),
+               (r"sec1\[", "sec1->d[", ">=1")]})
+add({"name": "geom_large_enough", "file": ID, "anchor": r"\[total_sectors, fmt, &media\]\(const DFS::ImageFileFormat& ff\) -> bool",
+     "sig": "static bool geom_large_enough(sector_count_type total_sectors, int fmt, struct DataAccess *media, const struct ImageFileFormat *ff)",
+     "rules": [(r"DFS::sector_count_type available_sectors;", "sector_count_type available_sectors;", 1), (r"std::string sides_desc;", "/* description dropped */", 1),
+               (r'sides_desc = "[^"]*";', "/* description dropped */", ">=0"),
+               (r"DFS::single_sided_filesystem\(fmt, media\)", "(g_single_sided = single_sided_filesystem(fmt, media))", 1),
+               (r"DFS::sector_count\(", "sector_count(", ">=1"), (r"ff\.geometry\.total_sectors\(\)", "Geometry_total_sectors(&ff->geometry)", ">=1"),
+               (r"ff\.geometry\.", "ff->geometry.", ">=1"),
+               (r"if \(DFS::verbose\)\s*\{[^{}]*\}", "/* verbose dropped */", "=0or1"),
+               (r"std::ostringstream os;.*?eliminated_geometry\([^;]*\);", "g_diag++;  /* diagnostic text dropped */", 1)],
+     "dropped": ["verbose text", "eliminated_geometry diagnostic"]})
+add({"name": "geom_other_side_has_catalog_too", "file": ID, "anchor": r"\[&media\]\(const DFS::ImageFileFormat& ff\) -> bool",
+     "sig": "static bool geom_other_side_has_catalog_too(struct DataAccess *media, const struct ImageFileFormat *ff)",
+     "rules": [(r"DFS::sector_count_type other =", "sector_count_type other =", 1), (r"DFS::sector_count\(", "sector_count(", 1),
+               (r"ff\.geometry\.", "ff->geometry.", ">=1"), (r"ff\.interleaved", "ff->interleaved", ">=1"),
+               (r"std::string error;", "/* error text dropped */", 1),
+               (r"has_valid_dfs_catalog\(media, other, error\)", "has_valid_dfs_catalog_model(media, other)", 1),
+               (r"std::ostringstream os;.*?eliminated_format\([^;]*\);", "g_diag++;  /* diagnostic text dropped */", 1)],
+     "dropped": ["eliminated_format diagnostic"]})
+add({"name": "geom_compare_formats", "file": ID, "anchor": r"\[\]\(const DFS::ImageFileFormat& left,\s*const DFS::ImageFileFormat& right\)",
+     "sig": "static bool geom_compare_formats(const struct ImageFileFormat *left, const struct ImageFileFormat *right)",
+     "rules": [(r"\b(left|right)\.geometry\.total_sectors\(\)", r"Geometry_total_sectors(&\1->geometry)", ">=2"), (r"\b(left|right)\.geometry\.", r"\1->geometry.", ">=1")]})
+
 # ---- driveselector.cc / storage.cc (C16): SurfaceSelector is `unsigned int d_` by value -----------
 DS = "dfs/driveselector.cc"
 SSEL = (r"SurfaceSelector\(", "(surface_t)(")
@@ -736,6 +795,40 @@ add({"name": "dump_sector_addr", "file": "dfs/cmd_dump.cc",
      "sig": "static sector_count_type dump_sector_addr(struct opt_long track, struct opt_long sector, const struct Geometry *geom_)",
      "region_epilogue": "return sec_addr;\n",
      "rules": [(r"\(\*track\)", "(track.val)", 1), (r"\(\*sector\)", "(sector.val)", 1), (r"geom\.sectors", "geom_->sectors", 1)]})
+
+# ---- cmd_space.cc / dfs_catalog.cc (C14: the gaps of `space`) ----------------------------------------------------------
+add({"name": "catalog_sectors_for_format", "file": "dfs/dfs_catalog.cc", "anchor": r"sector_count_type catalog_sectors_for_format\(const Format& f\)",
+     "sig": "static sector_count_type catalog_sectors_for_format(int f)", "rules": [(r"Format::(\w+)", r"Format_\1", ">=1")]})
+add({"name": "data_sectors_reserved_for_catalog", "file": "dfs/dfs_catalog.cc", "anchor": r"sector_count_type data_sectors_reserved_for_catalog\(const Format& f\)",
+     "sig": "static sector_count_type data_sectors_reserved_for_catalog(int f)", "rules": [(r"Format::(\w+)", r"Format_\1", ">=1")]})
+add({"name": "space_maybe_gap", "file": "dfs/cmd_space.cc", "anchor": r"\[&gaps\]\(DFS::sector_count_type last,\s*DFS::sector_count_type next\)",
+     "sig": "static void space_maybe_gap(sector_count_type last, sector_count_type next)",
+     "rules": [(r'throw DFS::BadFileSystem\("[^"]*"\);', "{ VERIF_THROW(BadFileSystem, 0); return; }", ">=1"),
+               (r"gaps\.push_back\(([^;]*)\);", r"gaps_push_back(\1);", ">=1")]})
+add({"name": "space_add_initial_gap", "file": "dfs/cmd_space.cc",
+     "anchor": r"\(std::optional<std::pair<int, int>> first_file\)",
+     "sig": "static void space_add_initial_gap(const struct SpaceRoot *root, struct opt_pair first_file, _Bool *added_initial_gap_)",
+     "pre": "#define added_initial_gap (*added_initial_gap_)\n", "post": "#undef added_initial_gap\n",
+     "rules": [(r"\bassert\(", "VERIF_ASSERT(", ">=0"),
+               (r"auto following = root\.total_sectors\(\);", "sector_count_type following = root->total_sectors;", 1),
+               (r"if \(first_file\)", "if (first_file.has)", 1),
+               (r"const auto& ce\(catalogs\[first_file->first\]\[first_file->second\]\);", "const struct CatalogEntry *ce = catalogs_at(first_file.first, first_file.second);", 1),
+               (r"ce\.start_sector\(\)", "CatalogEntry_start_sector(ce)", 1),
+               (r"\bauto cat_sectors\b", "sector_count_type cat_sectors", 1),
+               (r"root\.disc_format\(\)", "root->disc_format", ">=0"), (r"root\.catalog_sectors\(\)", "SpaceRoot_catalog_sectors(root)", ">=0"),
+               (r"\bmaybe_gap\(", "space_maybe_gap_v(", 1)]})
+
+# ---- cmd_cat.cc (C02: "current directory first, then by directory and name, case-insensitively") ---------------------
+add({"name": "cat_mapdir", "file": "dfs/cmd_cat.cc", "anchor": r"\[&ctx\] \(char dir\) -> char",
+     "sig": "static char cat_mapdir(char ctx_current_directory, char dir)",
+     "rules": [(r"ctx\.current_directory", "ctx_current_directory", ">=1"), (r"static_cast<char>\(", "(char)(", ">=0"),
+               (r"static_cast<unsigned char>\(", "(unsigned char)(", ">=0"), (r"\btolower\(", "verif_tolower(", ">=1")]})
+add({"name": "cat_compare_entries", "file": "dfs/cmd_cat.cc", "anchor": r"\[&ctx\]\(const CatalogEntry& l, const CatalogEntry& r\) -> bool",
+     "sig": "static bool cat_compare_entries(char ctx_current_directory, const struct CatEnt *l, const struct CatEnt *r)",
+     "rules": [(r"auto mapdir =\s*\[&ctx\] \(char dir\) -> char \{.*?\};", "/* lambda mapdir: extracted separately (cat_mapdir) */", 1),
+               (r"\bmapdir\(", "cat_mapdir(ctx_current_directory, ", ">=2"),
+               (r"\b([lr])\.directory\(\)", r"\1->dir", ">=2"),
+               (r"DFS::stringutil::case_insensitive_less\(([lr])\.name\(\), ([lr])\.name\(\)\)", r"ci_less_model(&\1->name, &\2->name)", 1)]})
 
 # ---- cmd_cat.cc: column tracking of the catalogue listing (C19: computations next to / inside asserts) -----------------
 add({"name": "colstream_tab", "file": "dfs/cmd_cat.cc", "anchor": r"void tab\(\)",
